@@ -48,6 +48,10 @@ type ar struct {
 	containsAtoms map[string]string
 	// existence loops `for _, x := range S { if <cond> { return true } }`: "S|cond" (x renamed to _x) -> lean Bool
 	existsAtoms map[string]string
+	// Lean lines emitted in front of the lets of a multi-valued call (callAtoms), e.g. to record what the call was given
+	callPre map[string]string
+	// expression statements with a meaning: source -> Lean lines (lets)
+	stmtAtoms map[string]string
 	// receiver fields treated as variables of the translated function: source text ("l.isLocked") -> variable name
 	fieldVars map[string]string
 	// methods that may be spliced in where they are called as a statement (`l.unlock()`): call source -> body
@@ -346,6 +350,20 @@ func (a *ar) ret(r *ast.ReturnStmt, en env) string {
 			}
 		}
 	}
+	if a.fn == "scaleUpFn" && len(r.Results) == 2 {
+		x, k := a.expr(r.Results[0], en)
+		e := "false"
+		if !isNil(r.Results[1]) {
+			es, ek := a.expr(r.Results[1], en)
+			if ek != kB {
+				es, _ = a.unk("returned error: " + srcOf(r.Results[1]))
+			}
+			e = es
+		}
+		if k == kI || k == kLit {
+			return "(" + a.toI(x, k) + ", " + e + ", askedCloud_, asked_, locked_, lockedWith_)"
+		}
+	}
 	if a.fn == "boolFn" && len(r.Results) == 1 {
 		x, k := a.expr(r.Results[0], en)
 		if k == kB {
@@ -498,6 +516,13 @@ func (a *ar) block(ss []ast.Stmt, en env, ind string) string {
 		if isLogStmt(s) {
 			return a.block(rest, en, ind)
 		}
+		if lines, ok := a.stmtAtoms[srcOf(v.X)]; ok {
+			out := ""
+			for _, l := range strings.Split(lines, "\n") {
+				out += ind + l + "\n"
+			}
+			return out + a.block(rest, en, ind)
+		}
 		if body, ok := a.splice[srcOf(v.X)]; ok {
 			return a.block(append(append([]ast.Stmt{}, body...), rest...), en, ind)
 		}
@@ -520,6 +545,11 @@ func (a *ar) block(ss []ast.Stmt, en env, ind string) string {
 			if at, ok := a.callAtoms[srcOf(v.Rhs[0])]; ok && len(at) == len(v.Lhs) {
 				en2 := en.copy()
 				out := ""
+				if pre, ok := a.callPre[srcOf(v.Rhs[0])]; ok {
+					for _, l := range strings.Split(pre, "\n") {
+						out += ind + l + "\n"
+					}
+				}
 				for i, l := range v.Lhs {
 					if at[i][0] == "" {
 						continue
@@ -540,6 +570,19 @@ func (a *ar) block(ss []ast.Stmt, en env, ind string) string {
 				en2 := en.copy()
 				en2[d], en2[e] = kI, kB
 				return ind + "let " + d + " : Int := up.1\n" + ind + "let " + e + " : Bool := up.2\n" + a.block(rest, en2, ind)
+			}
+		}
+		if len(v.Lhs) == 1 && len(v.Rhs) == 1 && (v.Tok == token.SUB_ASSIGN || v.Tok == token.ADD_ASSIGN) {
+			name := ""
+			if id, ok := v.Lhs[0].(*ast.Ident); ok {
+				name = id.Name
+			} else if n, ok := a.fieldVars[srcOf(v.Lhs[0])]; ok {
+				name = n
+			}
+			r, kr := a.expr(v.Rhs[0], en)
+			if name != "" && en[name] == kI && (kr == kI || kr == kLit) {
+				op := map[token.Token]string{token.SUB_ASSIGN: "-", token.ADD_ASSIGN: "+"}[v.Tok]
+				return fmt.Sprintf("%slet %s : Int := (%s %s %s)\n", ind, name, name, op, a.toI(r, kr)) + a.block(rest, en, ind)
 			}
 		}
 		if len(v.Lhs) == len(v.Rhs) && (v.Tok == token.DEFINE || v.Tok == token.ASSIGN) {
